@@ -199,6 +199,13 @@ Qed.
 Theorem python_string_ok : forall s, quoted python_chars (escape_string_python s).
 Proof. intros s. apply escape_string_quoted; [exact python_plain_covers|auto]. Qed.
 
+Theorem yaml_double_quoted_ok : forall s, quoted yaml_dq_chars (escape_string_json s).
+Proof.
+  intros s. apply escape_string_quoted; [|auto].
+  intros c H _ _ _. unfold yaml_dq_plain. replace (32 <=? c) with true by (symmetry; apply N.leb_le; exact H).
+  apply orb_true_r.
+Qed.
+
 (* ---------------------------------------------------------------- decoding gives the code points back *)
 Lemma simple_escape_117 : simple_escape 117 = None.
 Proof. reflexivity. Qed.
